@@ -138,9 +138,27 @@ class SourceFile:
     def virtual_write(self):
         self.source = self.new_code()
 
+    def _used_replacements(self):
+        """Returns the sorted replacements, without the ones which are nested
+        inside another replacement.
+
+        A change inside of code which gets replaced or deleted as a
+        whole (like the change of a snapshot() inside a list element
+        which gets deleted) has no effect.
+        """
+        result: list[Replacement] = []
+        for r in sorted(self.replacements):
+            if (
+                result
+                and result[-1].range.start < r.range.start
+                and r.range.end < result[-1].range.end
+            ):
+                continue
+            result.append(r)
+        return result
+
     def _check(self):
-        replacements = list(self.replacements)
-        replacements.sort()
+        replacements = self._used_replacements()
 
         for r in replacements:
             assert r.range.start <= r.range.end, r
@@ -151,8 +169,7 @@ class SourceFile:
     def new_code(self) -> str:
         """Returns the new file contend or None if there are no replacepents to
         apply."""
-        replacements = list(self.replacements)
-        replacements.sort()
+        replacements = self._used_replacements()
 
         self._check()
 
